@@ -29,6 +29,8 @@ def main():
     keep = "--keep" in a
     miri = "--miri" in a
     tier = "thorough" if "--thorough" in a else "quick"
+    seeds = [int(x) for x in a[a.index("--seeds") + 1].split(",")] if "--seeds" in a else [int(os.environ.get("VERIF_SEED", "1"))]
+    quickcheck_only = "--no-confirm" in a
     name = hashlib.sha1(d.encode()).hexdigest()[:8]
     wt = "/tmp/mut/%s" % name
     os.makedirs("/tmp/mut", exist_ok=True)
@@ -69,10 +71,12 @@ def main():
         cenv["VERIF_EVIDENCE_DIR"] = "/tmp/mut/evidence-%s" % name
         cenv["VERIF_REPLAY_DIR"] = "/tmp/mut/replays-%s" % name
         for p in props:
-            t0 = time.time()
-            rc, out = sh([os.path.join(ROOT, "check"), p, tier], cwd=ROOT, env=cenv)
-            sigs = [l.strip()[len("signature: "):] for l in out.splitlines() if l.strip().startswith("signature: ")]
-            caught[p] = {"exit": rc, "signatures": sigs[:6], "wall_s": round(time.time() - t0, 1)}
+            for sd in seeds:
+                t0 = time.time()
+                rc, out = sh([os.path.join(ROOT, "check"), p, tier], cwd=ROOT, env=dict(cenv, VERIF_SEED=str(sd)))
+                sigs = [l.strip()[len("signature: "):] for l in out.splitlines() if l.strip().startswith("signature: ")]
+                key = p if len(seeds) == 1 else "%s@seed%d" % (p, sd)
+                caught[key] = {"exit": rc, "signatures": sigs[:6], "wall_s": round(time.time() - t0, 1)}
         res["checks"] = caught
         res["caught_by"] = [p for p, v in caught.items() if v["exit"] == 1]
         res["inconclusive"] = [p for p, v in caught.items() if v["exit"] not in (0, 1)]
